@@ -4,6 +4,8 @@ Format (line oriented; '@' directives start in column 0):
 
   @unit NAME
   @crate_attrs / @uses / @prelude / @probes   ... @end      verbatim text blocks
+  @rewrite_call `REGEX` => `TEMPLATE`                      R20: every call whose callee text matches REGEX (the match ends right before `(`);
+                                                           TEMPLATE may use the regex groups and $ARGS (the argument text, brackets matched)
   @include FILE                                             splice prelude/FILE into the prelude
   @copy FILE KIND NAME [as verbatim|fields-pub]             copy const/struct/enum/type/macro item
   @trait FILE NAME ... @end                                 trait text; a line '//@defaults' marks
@@ -278,6 +280,13 @@ def parse(path, include_dir):
                     raise SpecError('%s:%d bad @rewrite_re' % (path, i))
                 tgt = cur_fn.rewrites if cur_fn else u.rewrites
                 tgt.append((m.group(1), m.group(2), 're'))
+                continue
+            if d == '@rewrite_call':
+                m = re.match(r'^' + BT + r'\s*=>\s*' + BT + r'$', rest)
+                if not m:
+                    raise SpecError('%s:%d bad @rewrite_call' % (path, i))
+                tgt = cur_fn.rewrites if cur_fn else u.rewrites
+                tgt.append((m.group(1), m.group(2), 'call'))
                 continue
             if d == '@rewrite':
                 m = re.match(r'^' + BT + r'\s*=>\s*' + BT + r'(\s+all)?$', rest)
